@@ -83,6 +83,7 @@ type Monitors struct {
 	traj        uint64
 	interleave  map[string]bool
 
+	recent  map[string][]*SQLEvent // per incarnation: its last statements (background loops included)
 	oracles []oracle
 	final   *finalOracle
 	opsDone int
@@ -283,6 +284,14 @@ func (m *Monitors) onZKEvent(e *ZKEvent) {
 }
 
 func (m *Monitors) onSQL(ev *SQLEvent) {
+	if m.recent == nil {
+		m.recent = map[string][]*SQLEvent{}
+	}
+	r := append(m.recent[ev.Src], ev)
+	if len(r) > 96 {
+		r = r[len(r)-64:]
+	}
+	m.recent[ev.Src] = r
 	if ev.It != nil {
 		ev.It.sql = append(ev.It.sql, ev)
 	}
@@ -420,7 +429,13 @@ func (m *Monitors) atEnd() {
 
 // ---------------------------------------------------------------- abstract state sampling (coverage measure)
 
-func (m *Monitors) abstractState() string {
+func (m *Monitors) abstractState() string { return m.abstractStateX(true) }
+
+// stabilitySig: the abstract state without the volatile GTID relation (which flips between
+// "eq" and "behind" with every client write) - used to decide whether the system still moves
+func (m *Monitors) stabilitySig() string { return m.abstractStateX(false) }
+
+func (m *Monitors) abstractStateX(withRel bool) string {
 	s := m.s
 	var b strings.Builder
 	mst := s.mysql.servers[m.master]
@@ -438,6 +453,9 @@ func (m *Monitors) abstractState() string {
 			default:
 				rel = "div"
 			}
+		}
+		if !withRel {
+			rel = ""
 		}
 		fmt.Fprintf(&b, "%s:up=%v,ro=%v,off=%v,ssm=%v,sss=%v,ch=%v,src=%s,io=%v,sql=%v,rel=%s;", sv.Name, sv.Up, sv.ReadOnly, sv.Offline, sv.SSMaster, sv.SSSlave, sv.HasChannel, sv.Source, sv.IORun && !sv.IOConnecting, sv.SQLRun, rel)
 	}
